@@ -19,6 +19,7 @@ def tf (mode : String) (i : Nat) : List Nat :=
   | "drop" => if i % 2 = 1 then [] else [i]
   | "dup" => [i, i]
   | "create" => [i, 1000 + i]
+  | "push" => [i, 1000 + i]
   | _ => [i]
 
 def batches (xs : List Nat) (b : Nat) (fuel : Nat) : List (List Nat) :=
